@@ -329,6 +329,8 @@ impl Ingester {
                     }
                 };
                 self.last_wal_seq.store(seq, Ordering::Release);
+                #[cfg(feature = "verif-hooks")]
+                crate::verif_hooks::pause("ingester:after_wal_append").await;
             } else if self.config.wal.enabled {
                 telemetry::record_wal_operation("append", "error");
                 if !self.wal_warned.swap(true, Ordering::Relaxed) {
@@ -374,6 +376,8 @@ impl Ingester {
                 }
             };
             self.last_wal_seq.store(seq, Ordering::Release);
+            #[cfg(feature = "verif-hooks")]
+            crate::verif_hooks::pause("ingester:after_wal_append").await;
         } else if self.config.wal.enabled {
             telemetry::record_wal_operation("append", "error");
             if !self.wal_warned.swap(true, Ordering::Relaxed) {
@@ -666,6 +670,8 @@ impl Ingester {
             size_bytes: parquet_size,
         };
         self.metadata.register_chunk(&path, &chunk_metadata).await?;
+        #[cfg(feature = "verif-hooks")]
+        crate::verif_hooks::pause("flush:after_register").await;
 
         // Broadcast to streaming query subscribers (legacy)
         if let Err(e) = self.broadcast.send(combined.clone()) {
@@ -697,6 +703,8 @@ impl Ingester {
                 }
                 telemetry::record_wal_operation("truncate", "ok");
             }
+            #[cfg(feature = "verif-hooks")]
+            crate::verif_hooks::pause("flush:after_truncate").await;
             self.last_flushed_seq
                 .store(flushed_up_to, Ordering::Release);
             if let Err(e) = persist_flushed_seq(&self.config.wal.wal_dir, flushed_up_to) {
@@ -705,6 +713,8 @@ impl Ingester {
             } else {
                 telemetry::record_wal_operation("persist_flushed_seq", "ok");
             }
+            #[cfg(feature = "verif-hooks")]
+            crate::verif_hooks::pause("flush:after_persist").await;
         }
 
         // Update last flush time
